@@ -274,17 +274,22 @@ CLAIMED['C06'] = {
     'technique': 'Coq proof (invariant over the visitor run; writer theorems of C11, reader theorems of C04 and tokeniser theorems of C01/C12 reused) + extracted-model correspondence + oracle',
 }
 CLAIMED['C09'] = {
-    'text': 'PARTIAL. Theorem C09_no_loss_no_reorder_partial over the model of X12ContextReader.iter_segments: for every text, map '
-            'environment and loop id (or none) for which iteration completes, provided no loop node was inserted before an older '
-            'sibling during the run, the segments of the yielded nodes concatenated in yield order are exactly the source segments in '
-            'source order, each carrying the reader\'s set position and line number (heap invariant along the rightmost path of the '
-            'open tree). The premise is not implied by completion: C09_unrestricted_is_false gives a machine-checked counterexample '
-            '(a map with two sibling loops of the same id). Not proved: tree boundaries and arrangement by map path. The check '
-            'compares model and implementation on generated documents x loop ids and applies an independent partition / arrangement '
-            'oracle to the implementation (incl. envelope loops, back-to-back repeats, end of file).',
+    'text': 'PARTIAL (loop id ISA_LOOP open). Theorems over the model of X12ContextReader.iter_segments: '
+            'C09_no_loss_no_reorder_partial — for every text, environment and loop id for which iteration completes, if no loop node '
+            'was inserted before an older sibling, the segments of the yielded nodes concatenated in yield order are exactly the '
+            'source segments in source order, each with the reader\'s set position and line number; C09_allocation_order / '
+            'C09_no_loss_no_reorder — a computable MAP-LEVEL condition (ctx_order_ok per map, lid_ok for the loop id, compatibility '
+            'of the maps the 278 BHT switch reaches) discharges that premise; C09_shipped_no_loss_no_reorder — the shipped '
+            'configuration, by evaluation over the maps regenerated on each run, satisfies it for EVERY loop id except ISA_LOOP. '
+            'Machine-checked counterexamples show what is needed: C09_unrestricted_is_false (two sibling loops of one id), '
+            'C09_isa_loop_needs_cross_map_condition (4010 and 5010 maps place the envelope loops at different positions). Not '
+            'proved: ISA_LOOP on the shipped configuration; tree boundaries and arrangement by map path. The check compares model '
+            'and implementation on generated documents x loop ids and applies an independent partition / arrangement oracle to '
+            'the implementation (also on every input on which model and implementation part).',
     'design_ref': 'DESIGN.md §6 C09, §11',
-    'note': 'Trusted: Coq kernel; hand transcriptions Context.v / CtxReader.v / Walker / Reader; Spec/C09_spec.v; extraction.',
-    'technique': 'Coq proof (heap invariant over the reader run: open tree is spine-shaped, add_segment extends the traversal at the end) + extracted-model correspondence + oracle',
+    'note': 'Trusted: Coq kernel; hand transcriptions Context.v / CtxReader.v / Walker / Reader; Spec/C09_spec.v, C09_order_spec.v; '
+            'tools/gen/maps.py; extraction.',
+    'technique': 'Coq proof (heap invariant over the reader run; open-branch invariant tying the tree to the enclosing loops of the reader\'s node; per-map facts by vm_compute) + extracted-model correspondence + oracle',
 }
 CLAIMED['C10'] = {
     'text': 'PARTIAL. Theorems over the heap model of the X12DataNode API (Props/C10.v): a copy is made of freshly allocated objects '
@@ -292,8 +297,14 @@ CLAIMED['C10'] = {
             'leaves every original object untouched (for set_value when the copied node had no parent object: otherwise a proved '
             'counterexample — the copy\'s root keeps the original\'s parent); exists / count / first / select agree whenever select '
             'completes; set_value changes exactly one segment object and in it exactly the addressed element, and get_value then '
-            'returns the value (hypotheses shown necessary by proved counterexamples). Not proved: placement by add_* in map order, '
-            'delete_segment. The check runs random API scripts on model and implementation and applies the laws to the '
+            'returns the value (hypotheses shown necessary by proved counterexamples); placement: after add_segment / add_loop / add_node '
+            'the live children of the parent are insert_by_pos of the old ones and the new node (after the last sibling of position '
+            '<= the new one, first when there is none — a defect found by this proof and fixed in /repo), map order is preserved, the '
+            'heap changes by the allocation and the parent\'s list only, and the parent\'s iteration is the old one with the new '
+            'node spliced in exactly once; delete: exactly the node\'s subtree disappears from every iteration and query that '
+            'completed, order kept, idempotent, other objects untouched (C10_delete_laws), delete_segment likewise. Not proved: '
+            'get/set after add or delete, exception traces of the delete laws. The check runs random API scripts on model and '
+            'implementation and applies the laws (incl. deep paths over repeated loops, first-position re-add) to the '
             'implementation on trees from generated documents.',
     'design_ref': 'DESIGN.md §6 C10, §11',
     'note': 'Trusted: Coq kernel; hand transcription Context.v / CtxReader.v; Spec/C10_spec.v; extraction.',
